@@ -41,6 +41,9 @@ def run(ctx):
                 "(2) every (status x data operation) cell and TLC-simulated sequential histories with replays and reopen on real channels.Channels judged by C07.* in ChanJudge; "
                 "(3) free-running concurrent reporters (2-8 goroutines, overlapping and replayed index ranges, seeded marks, limits) on the real engine, start/end-logged, judged by C07Judge "
                 "(position sizes are distinct so announced progress deltas identify counted positions); non-trivial = data report step / concurrent case; distinct by (status, op, #events, result)")
+    # manager level: every transport block report (unique or not, any status) reaches the channel engine
+    stages.mgr_family(ctx, ["C07."], ["all"], lambda s: s["stim"]["kind"] in ("OnDataQueued", "OnDataSent", "OnDataReceived"), quick_n=1500, model=False, sims=True,
+                      keep=lambda l: any(k in l for k in ('"kind":"OnDataQueued"', '"kind":"OnDataSent"', '"kind":"OnDataReceived"')))
     ctx.assumptions += ["atomic CAS/add primitives of sync/atomic", "quiescent process restarts only (a crash between the progress event and the index event is outside the stated quantifier, DESIGN F8)"]
     if not ctx.quick():
         # unbounded arithmetic: AcctInd.tla (positions and sizes are arbitrary integers, 4 concurrent reports) - Apalache discharges
